@@ -49,25 +49,27 @@ def run(cmd, **kw):
 
 def main():
     names = sys.argv[1:]
-    if run("git -C /repo status --porcelain").stdout.strip():
-        print("/repo not clean"); sys.exit(2)
-    for name, f, old, new, prop in M:
-        if names and name not in names: continue
-        path = "/repo/" + f
-        s = open(path).read()
-        if s.count(old) != 1:
-            print(f"{name}: SKIP (pattern found {s.count(old)} times)"); continue
-        open(path, "w").write(s.replace(old, new))
-        b = run("cd /repo && GOFLAGS=-mod=mod GOPROXY=off GOSUMDB=off GOTOOLCHAIN=local go build ./... 2>&1 | head -5")
-        if b.stdout.strip():
-            print(f"{name}: SKIP (does not build: {b.stdout.strip()[:120]})")
-            run("git -C /repo checkout -- .")
-            continue
-        r = run(f"cd /verif && VERIF_EVIDENCE_DIR=/tmp/mut-evidence VERIF_WITNESS_DIR=/tmp/mut-witness ./bin/check {prop} --tier quick")
-        run("git -C /repo checkout -- .")
-        viol = [l for l in r.stdout.splitlines() if l.startswith("VIOLATION") or l.strip().startswith("rule=")]
-        rule = next((l.strip()[:150] for l in r.stdout.splitlines() if l.strip().startswith("rule=")), "")
-        print(f"{name} [{prop}]: {'CAUGHT' if r.returncode == 1 else 'MISSED' if r.returncode == 0 else 'BROKEN exit '+str(r.returncode)} {rule}", flush=True)
-    print(run("git -C /repo status --porcelain").stdout)
+    wt = "/tmp/mutants-wt.%d" % os.getpid()
+    if run("git -C /repo worktree add -q --detach %s HEAD" % wt).returncode != 0:
+        print("cannot create worktree"); sys.exit(2)
+    try:
+        for name, f, old, new, prop in M:
+            if names and name not in names: continue
+            path = wt + "/" + f
+            s = open(path).read()
+            if s.count(old) != 1:
+                print(f"{name}: SKIP (pattern found {s.count(old)} times)"); continue
+            open(path, "w").write(s.replace(old, new))
+            b = run("cd %s && GOFLAGS=-mod=mod GOPROXY=off GOSUMDB=off GOTOOLCHAIN=local go build ./... 2>&1 | head -5" % wt)
+            if b.stdout.strip():
+                print(f"{name}: SKIP (does not build: {b.stdout.strip()[:120]})")
+                run("git -C %s checkout -- ." % wt)
+                continue
+            r = run(f"cd /verif && VERIF_REPO={wt} VERIF_EVIDENCE_DIR=/tmp/mut-evidence VERIF_WITNESS_DIR=/tmp/mut-witness ./bin/check {prop} --tier quick")
+            run("git -C %s checkout -- ." % wt)
+            rule = next((l.strip()[:150] for l in r.stdout.splitlines() if l.strip().startswith("rule=")), "")
+            print(f"{name} [{prop}]: {'CAUGHT' if r.returncode == 1 else 'MISSED' if r.returncode == 0 else 'BROKEN exit '+str(r.returncode)} {rule}", flush=True)
+    finally:
+        run("git -C /repo worktree remove --force %s" % wt)
 
 main()
